@@ -446,7 +446,14 @@ pub fn run_property<P: Property>(prop: P, args: RunArgs) -> i32 {
                         // another worker failed: stop doing work
                         return Ok(());
                     }
+                    if std::env::var_os("VERIF_TRACE").is_some() {
+                        eprintln!("start worker={w} case={}", serde_json::to_string(&case).unwrap_or_default());
+                    }
                     let (outcome, new, known) = decide(&*prop, &case);
+                    if std::env::var_os("VERIF_TRACE").is_some() {
+                        let rss = std::fs::read_to_string("/proc/self/statm").ok().and_then(|s| s.split(' ').nth(1).and_then(|x| x.parse::<u64>().ok())).unwrap_or(0) * 4 / 1024;
+                        eprintln!("trace worker={w} rss_mb={rss} case={}", serde_json::to_string(&case).unwrap_or_default().chars().take(300).collect::<String>());
+                    }
                     if !*i_failed.borrow() {
                         let mut st = stats.borrow_mut();
                         st.evaluations += 1;
